@@ -1565,6 +1565,86 @@ fn walk(a: &Value, b: &Value, class: &mut String, path: &mut String) -> bool {
         }
     }
 }
+/// Debug rendering of a LEF value with every decimal outside string literals brought to one spelling (trailing zeros and a
+/// trailing point removed, `-0` -> `0`). The derived `Debug` prints every field of every struct, so this is a structural
+/// image of the value that does not pass through the library's own `PartialEq` (or serde attributes).
+pub fn canon_debug<T: std::fmt::Debug>(v: &T) -> String {
+    let s = format!("{:?}", v);
+    let b = s.as_bytes();
+    let mut out = String::with_capacity(b.len());
+    let mut i = 0;
+    let mut in_str = false;
+    while i < b.len() {
+        let c = b[i];
+        if in_str {
+            if c == b'\\' && i + 1 < b.len() {
+                out.push(c as char);
+                // (escapes are ASCII; multi-byte characters are copied below byte-wise through the char boundary logic)
+                i += 1;
+                let ch_len = utf8_len(b[i]);
+                out.push_str(&s[i..i + ch_len]);
+                i += ch_len;
+                continue;
+            }
+            if c == b'"' {
+                in_str = false;
+            }
+            let ch_len = utf8_len(c);
+            out.push_str(&s[i..i + ch_len]);
+            i += ch_len;
+            continue;
+        }
+        if c == b'"' {
+            in_str = true;
+            out.push('"');
+            i += 1;
+            continue;
+        }
+        let prev_alnum = i > 0 && (b[i - 1].is_ascii_alphanumeric() || b[i - 1] == b'_' || b[i - 1] == b'.');
+        if !prev_alnum && (c.is_ascii_digit() || (c == b'-' && i + 1 < b.len() && b[i + 1].is_ascii_digit())) {
+            let start = i;
+            if c == b'-' {
+                i += 1;
+            }
+            while i < b.len() && b[i].is_ascii_digit() {
+                i += 1;
+            }
+            if i + 1 < b.len() && b[i] == b'.' && b[i + 1].is_ascii_digit() {
+                i += 1;
+                while i < b.len() && b[i].is_ascii_digit() {
+                    i += 1;
+                }
+                let mut t = s[start..i].trim_end_matches('0');
+                t = t.trim_end_matches('.');
+                let t = if t == "-0" || t == "-" { "0" } else { t };
+                out.push_str(t);
+            } else {
+                let t = &s[start..i];
+                out.push_str(if t == "-0" { "0" } else { t });
+            }
+            continue;
+        }
+        let ch_len = utf8_len(c);
+        out.push_str(&s[i..i + ch_len]);
+        i += ch_len;
+    }
+    out
+}
+fn utf8_len(b: u8) -> usize {
+    if b < 0x80 {
+        1
+    } else if b >= 0xF0 {
+        4
+    } else if b >= 0xE0 {
+        3
+    } else {
+        2
+    }
+}
+/// Equality of two LEF libraries as the checks mean it: the library's own `==` AND equal structural images.
+pub fn lef_same(a: &LefLibrary, b: &LefLibrary) -> bool {
+    a == b && canon_debug(a) == canon_debug(b)
+}
 /// First difference between two LEF libraries as (class, path); `want` first. Only for classification.
 pub fn lef_diff(want: &LefLibrary, got: &LefLibrary) -> (String, String) {
     if want.fixed_mask != got.fixed_mask {
@@ -1580,7 +1660,20 @@ pub fn lef_diff(want: &LefLibrary, got: &LefLibrary) -> (String, String) {
     if walk(&a, &b, &mut class, &mut path) {
         (class, path)
     } else {
-        ("lib.unclassified".into(), "PartialEq differs but no JSON-visible difference".into())
+        let (da, db) = (canon_debug(want), canon_debug(got));
+        if da != db {
+            let k = da.bytes().zip(db.bytes()).take_while(|(x, y)| x == y).count();
+            let lo = (0..=k.saturating_sub(60)).rev().find(|j| da.is_char_boundary(*j)).unwrap_or(0);
+            let hi = (k + 60).min(da.len());
+            let hi = (hi..=da.len()).find(|j| da.is_char_boundary(*j)).unwrap_or(da.len());
+            let field = match da[..k].rfind(": ") {
+                Some(c) => da[..c].rsplit(|ch: char| !(ch.is_alphanumeric() || ch == '_')).next().unwrap_or("?").to_string(),
+                None => "?".to_string(),
+            };
+            ("lib.debug-image.".to_string() + &field, format!("structural images differ near: {}", &da[lo..hi]))
+        } else {
+            ("lib.unclassified".into(), "PartialEq differs but no JSON- or Debug-visible difference".into())
+        }
     }
 }
 /// Error class of a LefError: variant (+ parse error type)
